@@ -104,6 +104,7 @@ theorem wf : K.WFS 4 where
   arr_disj := (K.arrOK_of_none (fun _ => rfl)).arr_disj
   arr_code := (K.arrOK_of_none (fun _ => rfl)).arr_code
   loc_na := (K.arrOK_of_none (fun _ => rfl)).loc_na
+  str := K.strOK_of_none rfl
 
 def σ : X.St :=
   { gvars := [("g", some 5)], arrays := #[], locals := [], io := Isa.IOSt.init [], calls := [], steps := 0, depth := 0 }
@@ -174,6 +175,7 @@ theorem rep : Rep K σ mem where
       rw [h2] at h
       simp at h
   acells := by intro id cells h; simp [σ] at h
+  strs := by intro l bs ws j k h; simp [K] at h
 
 /-- `g := g + 1`. -/
 def stmt : X.Stmt := .assign "g" (.bin .plus (.name "g") (.num 1))
@@ -197,7 +199,7 @@ theorem exec_ok : X.exec 10 K.xc stmt σ = .ok .normal σ' := by rfl
     represents the state in which `g = 6`. -/
 theorem run : ∃ a' b' mem', Steps K.env (cfg 0 0 0 mem) σ.io (cfg 4 a' b' mem') σ'.io ∧ Rep K σ' mem' := by
   have h := (stmt_correct K 4 wf 10).1 stmt σ stmt_ok {} code {} 0 0 0 mem gen_ok code_at rep
-    (Nat.zero_le _) (Nat.le_refl _) (fun e he => by simp at he)
+    (Nat.zero_le _) (Nat.le_refl _) (fun e he => by simp [GS.items] at he)
   rw [exec_ok] at h
   exact h
 
